@@ -40,7 +40,7 @@ theorem splitLines_injective (s t : List Char) (h : splitLines s = splitLines t)
   rw [← joinLines_splitLines s, ← joinLines_splitLines t, h]
 
 theorem renderHunk_ne_nil (h : Hunk) : renderHunk h ≠ [] := by
-  simp [renderHunk]
+  simp [renderHunk, hunkLines]
 
 theorem renderHunks_eq_nil (hs : List Hunk) : renderHunks hs = [] ↔ hs = [] := by
   cases hs with
